@@ -185,11 +185,15 @@ def run_effect(job, res):
             for p, exp in spec.corpus("PERCENT_INT"):
                 cases.append((1, 255, 3, 0, 0, p, exp))
     rng.shuffle(cases)
-    for (n, c, t, a, s, p, exp) in cases:
+    NODE_VERSIONS = [v, "1.4", "2.2.0", "1.5", "2.3", "2.0", "2.1.1", v]
+    for k, (n, c, t, a, s, p, exp) in enumerate(cases):
         if exp is None:
             continue
         eng = Engine("async", v)
-        eng.feed(f"1;255;0;0;17;{v}\n")
+        # the node may have presented any version: acceptance depends on the gateway's version only
+        nv = NODE_VERSIONS[k % len(NODE_VERSIONS)]
+        res.count("effect_cases_node_version_differs", int(nv != v))
+        eng.feed(f"1;255;0;0;17;{nv}\n")
         eng.feed("1;1;0;0;23;custom\n")   # S_CUSTOM child
         before = snapshot(eng.gw)
         ncb = len(eng.cbs)
@@ -198,7 +202,7 @@ def run_effect(job, res):
             eng.feed(line)
         except Exception as exc:
             res.violation(f"effect-raises:{core.exc_sig(exc.__cause__ or exc)}",
-                          f"logic({line!r}) raised", {"version": v, "line": line, "phase": "effect"})
+                          f"logic({line!r}) raised", {"version": v, "line": line, "phase": "effect", "node_version": nv})
             continue
         after = snapshot(eng.gw)
         changed = before != after or len(eng.cbs) != ncb or eng.sent_in_step(eng.step)
@@ -206,10 +210,10 @@ def run_effect(job, res):
         res.count("effect_cases")
         if exp and not changed:
             res.violation(f"effect:accepted-but-no-effect:t={t}:s={s}",
-                          f"{line!r} is valid in {v} but logic() had no effect", {"version": v, "line": line, "phase": "effect"})
+                          f"{line!r} is valid in {v} but logic() had no effect (node presented {nv})", {"version": v, "line": line, "phase": "effect", "node_version": nv})
         if not exp and changed:
             res.violation(f"effect:rejected-but-effect:t={t}:s={s}",
-                          f"{line!r} is invalid in {v} but logic() had an effect", {"version": v, "line": line, "phase": "effect"})
+                          f"{line!r} is invalid in {v} but logic() had an effect (node presented {nv})", {"version": v, "line": line, "phase": "effect", "node_version": nv})
         res.nontrivial(("effect", v, t, s, p))
     res.sample({"phase": "effect", "version": v, "prepared": ["1;255;0;0;17;" + v, "1;1;0;0;23;custom"],
                 "example": "1;1;1;0;3;101"})
